@@ -187,27 +187,39 @@ fn c09_get_op() {
     std::mem::forget(ctx);
 }
 
-#[kani::proof]
-#[kani::unwind(16)]
-fn c09_get_config() {
+fn get_config_for(di: usize) {
     let caps = Caps::any();
     let ctx = caps.context();
-    let mut di = 0;
-    while di < 3 {
-        let d = DATASTORES[di];
-        let mut f = 0u8;
-        while f < 3 {
-            let r = new_decomposed::<GetConfig<Opaque>, _>(&ctx, |b| b.source(d)?.filter(filter_for(f))?.finish());
-            let allowed = caps.source_ok(d) && (f != 2 || caps.xpath);
-            assert!(r.is_ok() == allowed, "C09 get-config: request built iff source datastore and filter type are permitted");
-            kani::cover!(r.is_ok() && f == 2 && di == 2, "startup + xpath accepted");
-            kani::cover!(r.is_err() && di == 0, "get-config from running refused (filter)");
-            std::mem::forget(r);
-            f += 1;
-        }
-        di += 1;
+    let d = DATASTORES[di];
+    let mut f = 0u8;
+    while f < 3 {
+        let r = new_decomposed::<GetConfig<Opaque>, _>(&ctx, |b| b.source(d)?.filter(filter_for(f))?.finish());
+        let allowed = caps.source_ok(d) && (f != 2 || caps.xpath);
+        assert!(r.is_ok() == allowed, "C09 get-config: request built iff source datastore and filter type are permitted");
+        kani::cover!(r.is_ok() && f == 2, "xpath filter accepted");
+        kani::cover!(r.is_err() && f == 2, "get-config refused");
+        std::mem::forget(r);
+        f += 1;
     }
     std::mem::forget(ctx);
+}
+
+#[kani::proof]
+#[kani::unwind(16)]
+fn c09_get_config_running() {
+    get_config_for(0)
+}
+
+#[kani::proof]
+#[kani::unwind(16)]
+fn c09_get_config_candidate() {
+    get_config_for(1)
+}
+
+#[kani::proof]
+#[kani::unwind(16)]
+fn c09_get_config_startup() {
+    get_config_for(2)
 }
 
 #[kani::proof]
@@ -230,17 +242,13 @@ fn c09_lock_unlock() {
     std::mem::forget(ctx);
 }
 
-#[kani::proof]
-#[kani::unwind(16)]
-fn c09_commit() {
+fn commit_for(set_persist: bool, set_persist_id: bool) {
     let caps = Caps::any();
     let ctx = caps.context();
     // which optional parameters the caller sets
     let set_confirmed: bool = kani::any();
     let confirmed_val: bool = kani::any();
     let set_timeout: bool = kani::any();
-    let set_persist: bool = kani::any();
-    let set_persist_id: bool = kani::any();
     let r = new_decomposed::<Commit, _>(&ctx, |mut b| {
         if set_confirmed {
             b = b.confirmed(confirmed_val)?;
@@ -269,10 +277,37 @@ fn c09_commit() {
     if needs_ok && combo_ok {
         assert!(r.is_ok(), "C09 commit: request within the advertised capabilities refused");
     }
-    kani::cover!(r.is_ok() && confirmed && set_persist, "confirmed + persist accepted");
-    kani::cover!(r.is_err() && caps.candidate, "commit refused for a parameter");
+    if !(set_persist && set_persist_id) {
+        // (persist together with persist-id is an invalid combination whatever `confirmed` is)
+        kani::cover!(r.is_ok(), "commit accepted");
+    }
+    kani::cover!(r.is_err() && caps.candidate, "commit refused although :candidate is advertised");
     std::mem::forget(r);
     std::mem::forget(ctx);
+}
+
+#[kani::proof]
+#[kani::unwind(16)]
+fn c09_commit_plain() {
+    commit_for(false, false)
+}
+
+#[kani::proof]
+#[kani::unwind(16)]
+fn c09_commit_persist() {
+    commit_for(true, false)
+}
+
+#[kani::proof]
+#[kani::unwind(16)]
+fn c09_commit_persist_id() {
+    commit_for(false, true)
+}
+
+#[kani::proof]
+#[kani::unwind(16)]
+fn c09_commit_persist_both() {
+    commit_for(true, true)
 }
 
 #[kani::proof]
@@ -302,7 +337,7 @@ fn c09_simple_ops() {
 
 #[kani::proof]
 #[kani::unwind(16)]
-fn c09_validate_delete() {
+fn c09_validate() {
     let caps = Caps::any();
     let ctx = caps.context();
     let vi = new_decomposed::<Validate, _>(&ctx, |b| b.config(String::new()).finish());
@@ -313,12 +348,9 @@ fn c09_validate_delete() {
         let d = DATASTORES[di];
         let v = new_decomposed::<Validate, _>(&ctx, |b| b.source(d)?.finish());
         assert!(v.is_ok() == (caps.validate() && caps.source_ok(d)), "C09 validate: built iff :validate and the source datastore are permitted");
-        let del = new_decomposed::<DeleteConfig, _>(&ctx, |b| b.target(d)?.finish());
-        let del_allowed = di != 0 && caps.target_ok(d);
-        assert!(del.is_ok() == del_allowed, "C09 delete-config: built iff the target is not running and is permitted");
         kani::cover!(v.is_ok() && di == 1, "validate candidate accepted");
-        kani::cover!(del.is_ok(), "delete-config accepted");
-        std::mem::forget((v, del));
+        kani::cover!(v.is_err(), "validate refused");
+        std::mem::forget(v);
         di += 1;
     }
     std::mem::forget(ctx);
@@ -326,28 +358,59 @@ fn c09_validate_delete() {
 
 #[kani::proof]
 #[kani::unwind(16)]
-fn c09_copy_config() {
+fn c09_delete_config() {
     let caps = Caps::any();
     let ctx = caps.context();
-    let mut ti = 0;
-    while ti < 3 {
-        let t = DATASTORES[ti];
-        let ri = new_decomposed::<CopyConfig, _>(&ctx, |b| b.target(t)?.config(String::new()).finish());
-        assert!(ri.is_ok() == caps.target_ok(t), "C09 copy-config (inline source): built iff the target datastore is permitted");
-        std::mem::forget(ri);
-        let mut si = 0;
-        while si < 3 {
-            let s = DATASTORES[si];
-            let r = new_decomposed::<CopyConfig, _>(&ctx, |b| b.target(t)?.source(s)?.finish());
-            assert!(r.is_ok() == (caps.target_ok(t) && caps.source_ok(s)), "C09 copy-config: built iff target and source datastores are permitted");
-            kani::cover!(r.is_ok() && ti == 2 && si == 1, "copy candidate -> startup accepted");
-            kani::cover!(r.is_err(), "copy-config refused");
-            std::mem::forget(r);
-            si += 1;
-        }
-        ti += 1;
+    let mut di = 0;
+    while di < 3 {
+        let d = DATASTORES[di];
+        let del = new_decomposed::<DeleteConfig, _>(&ctx, |b| b.target(d)?.finish());
+        let del_allowed = di != 0 && caps.target_ok(d);
+        assert!(del.is_ok() == del_allowed, "C09 delete-config: built iff the target is not running and is permitted");
+        kani::cover!(del.is_ok(), "delete-config accepted");
+        kani::cover!(del.is_err() && di == 2, "delete-config startup refused");
+        std::mem::forget(del);
+        di += 1;
     }
     std::mem::forget(ctx);
+}
+
+fn copy_config_for(ti: usize) {
+    let caps = Caps::any();
+    let ctx = caps.context();
+    let t = DATASTORES[ti];
+    let ri = new_decomposed::<CopyConfig, _>(&ctx, |b| b.target(t)?.config(String::new()).finish());
+    assert!(ri.is_ok() == caps.target_ok(t), "C09 copy-config (inline source): built iff the target datastore is permitted");
+    std::mem::forget(ri);
+    let mut si = 0;
+    while si < 3 {
+        let s = DATASTORES[si];
+        let r = new_decomposed::<CopyConfig, _>(&ctx, |b| b.target(t)?.source(s)?.finish());
+        assert!(r.is_ok() == (caps.target_ok(t) && caps.source_ok(s)), "C09 copy-config: built iff target and source datastores are permitted");
+        kani::cover!(r.is_ok() && si == 1, "copy from candidate accepted");
+        kani::cover!(r.is_err(), "copy-config refused");
+        std::mem::forget(r);
+        si += 1;
+    }
+    std::mem::forget(ctx);
+}
+
+#[kani::proof]
+#[kani::unwind(16)]
+fn c09_copy_config_to_running() {
+    copy_config_for(0)
+}
+
+#[kani::proof]
+#[kani::unwind(16)]
+fn c09_copy_config_to_candidate() {
+    copy_config_for(1)
+}
+
+#[kani::proof]
+#[kani::unwind(16)]
+fn c09_copy_config_to_startup() {
+    copy_config_for(2)
 }
 
 pub const TEST_OPTIONS: [TestOption; 3] = [TestOption::TestThenSet, TestOption::Set, TestOption::TestOnly];
@@ -375,7 +438,7 @@ fn c09_edit_config_target() {
 
 #[kani::proof]
 #[kani::unwind(16)]
-fn c09_edit_config_options() {
+fn c09_edit_config_test_option() {
     let caps = Caps::any();
     kani::assume(caps.candidate);
     let ctx = caps.context();
@@ -388,13 +451,7 @@ fn c09_edit_config_options() {
         let allowed = if k == 2 { caps.v11 } else { caps.validate() };
         assert!(r.is_ok() == allowed, "C09 edit-config: built iff the test-option value is permitted");
         kani::cover!(r.is_ok() && k == 2, "test-only accepted");
-        std::mem::forget(r);
-        let err = ERROR_OPTIONS[k];
-        let r = new_decomposed::<EditConfig<Opaque>, _>(&ctx, |b| {
-            b.target(Datastore::Candidate)?.config(Opaque::from("")).error_option(err)?.finish()
-        });
-        assert!(r.is_ok() == (k != 2 || caps.rollback), "C09 edit-config: built iff the error-option value is permitted");
-        kani::cover!(r.is_err(), "rollback-on-error refused");
+        kani::cover!(r.is_err(), "test-option refused");
         std::mem::forget(r);
         k += 1;
     }
@@ -403,21 +460,54 @@ fn c09_edit_config_options() {
 
 #[kani::proof]
 #[kani::unwind(16)]
-fn c09_url() {
+fn c09_edit_config_error_option() {
     let caps = Caps::any();
+    kani::assume(caps.candidate);
     let ctx = caps.context();
-    let mut s = 0u8;
-    while s < 3 {
-        let r = new_decomposed::<EditConfig<Opaque>, _>(&ctx, |b| b.target(Datastore::Candidate)?.url(url_for(s))?.finish());
-        assert!(r.is_ok() == (caps.candidate && caps.scheme_ok(s)), "C09 edit-config url: built iff the URL scheme is advertised in :url");
-        let d = new_decomposed::<DeleteConfig, _>(&ctx, |b| b.url(url_for(s))?.finish());
-        assert!(d.is_ok() == caps.scheme_ok(s), "C09 delete-config url: built iff the URL scheme is advertised in :url");
-        kani::cover!(r.is_ok() && s == 1, "ftp url accepted");
-        kani::cover!(d.is_err() && caps.url, "url refused although :url advertised (other scheme)");
-        std::mem::forget((r, d));
-        s += 1;
+    let mut k = 0;
+    while k < 3 {
+        let err = ERROR_OPTIONS[k];
+        let r = new_decomposed::<EditConfig<Opaque>, _>(&ctx, |b| {
+            b.target(Datastore::Candidate)?.config(Opaque::from("")).error_option(err)?.finish()
+        });
+        assert!(r.is_ok() == (k != 2 || caps.rollback), "C09 edit-config: built iff the error-option value is permitted");
+        kani::cover!(r.is_ok() && k == 2, "rollback-on-error accepted");
+        kani::cover!(r.is_err(), "rollback-on-error refused");
+        std::mem::forget(r);
+        k += 1;
     }
     std::mem::forget(ctx);
+}
+
+fn url_for_scheme(s: u8) {
+    let caps = Caps::any();
+    let ctx = caps.context();
+    let r = new_decomposed::<EditConfig<Opaque>, _>(&ctx, |b| b.target(Datastore::Candidate)?.url(url_for(s))?.finish());
+    assert!(r.is_ok() == (caps.candidate && caps.scheme_ok(s)), "C09 edit-config url: built iff the URL scheme is advertised in :url");
+    let d = new_decomposed::<DeleteConfig, _>(&ctx, |b| b.url(url_for(s))?.finish());
+    assert!(d.is_ok() == caps.scheme_ok(s), "C09 delete-config url: built iff the URL scheme is advertised in :url");
+    kani::cover!(r.is_ok(), "url accepted");
+    kani::cover!(d.is_err() && caps.url, "url refused although :url advertised (other scheme)");
+    std::mem::forget((r, d));
+    std::mem::forget(ctx);
+}
+
+#[kani::proof]
+#[kani::unwind(16)]
+fn c09_url_file() {
+    url_for_scheme(0)
+}
+
+#[kani::proof]
+#[kani::unwind(16)]
+fn c09_url_ftp() {
+    url_for_scheme(1)
+}
+
+#[kani::proof]
+#[kani::unwind(16)]
+fn c09_url_http() {
+    url_for_scheme(2)
 }
 
 #[cfg(feature = "junos")]
@@ -457,4 +547,334 @@ fn c09_operation_new_gate() {
     kani::cover!(r.is_err(), "gate closed");
     std::mem::forget(r);
     std::mem::forget(ctx);
+}
+
+// =================================================================================================
+// C05 / C18: one step of `Session::recv` from an arbitrary valid state of the outstanding-request
+// map (DESIGN.md §5 C05).
+
+use crate::message::rpc::verif_replies as vr;
+use crate::transport::{RecvHandle, SendHandle};
+use crate::verif_support as sup;
+use quick_xml::tape::{self, AttrCell, Cell, Tape};
+
+/// In-memory transport: the receive side hands out scripted replies (each a tape slot).
+#[derive(Debug)]
+pub struct MemTransport;
+
+#[derive(Debug)]
+pub struct MemTx {
+    pub sent: usize,
+    pub fail: bool,
+}
+
+#[derive(Debug)]
+pub struct MemRx {
+    /// tape slots of the replies still to arrive
+    pub slots: [u8; 2],
+    pub n: usize,
+    pub pos: usize,
+    /// replies that are not there yet: `recv` answers Pending until the harness sets `n`
+    pub taken: usize,
+}
+
+impl Transport for MemTransport {
+    type SendHandle = MemTx;
+    type RecvHandle = MemRx;
+    fn split(self) -> (MemTx, MemRx) {
+        (MemTx { sent: 0, fail: false }, MemRx { slots: [0, 1], n: 0, pos: 0, taken: 0 })
+    }
+}
+
+#[async_trait::async_trait]
+impl SendHandle for MemTx {
+    async fn send(&mut self, _data: bytes::Bytes) -> Result<(), Error> {
+        if self.fail {
+            Err(Error::DequeueMessage)
+        } else {
+            self.sent += 1;
+            Ok(())
+        }
+    }
+}
+
+#[async_trait::async_trait]
+impl RecvHandle for MemRx {
+    async fn recv(&mut self) -> Result<bytes::Bytes, Error> {
+        std::future::poll_fn(|_| {
+            if self.pos < self.n {
+                let s = self.slots[self.pos];
+                self.pos += 1;
+                self.taken += 1;
+                std::task::Poll::Ready(Ok(bytes::Bytes::from_static(tape::input_for(s).as_bytes())))
+            } else {
+                std::task::Poll::Pending
+            }
+        })
+        .await
+    }
+}
+
+// reply tapes: <rpc-reply message-id=ID><data>dID</data></rpc-reply>
+pub mod st {
+    pub const ID1: u8 = 12; // "101" in REPLY_TEXTS is not used here; see session_texts below
+}
+
+pub static SESSION_NAMES: [&[u8]; 4] = [b"", b"rpc-reply", b"data", b"ok"];
+pub static SESSION_TEXTS: [tape::TextEntry; 7] = [
+    tape::TextEntry::plain(""),
+    tape::TextEntry::plain("1"),
+    tape::TextEntry::plain("2"),
+    tape::TextEntry::plain("9"),
+    tape::TextEntry::plain("d1"),
+    tape::TextEntry::plain("d2"),
+    tape::TextEntry::plain("d9"),
+];
+pub static SESSION_ATTRS: [tape::AttrName; 1] = [tape::AttrName { qname: b"message-id", local: b"message-id", ns: tape::ns::UNBOUND }];
+
+/// the reply tape for message-id code `c` (0 -> id 1, 1 -> id 2, 2 -> id 9)
+pub fn reply_tape(c: u8) -> Tape {
+    let mut t = Tape::EMPTY;
+    t.attrs[0] = AttrCell::new(0, 1 + c);
+    t.push(Cell::start(tape::ns::BASE, 1).with_attrs(0, 1));
+    t.push(Cell::start(tape::ns::BASE, 2));
+    t.push(Cell::text(4 + c));
+    t.push(Cell::end(tape::ns::BASE, 2));
+    t.push(Cell::end(tape::ns::BASE, 1));
+    t
+}
+
+pub fn id_of_code(c: u8) -> usize {
+    match c {
+        0 => 1,
+        1 => 2,
+        _ => 9,
+    }
+}
+
+type Requests = Arc<Mutex<HashMap<rpc::MessageId, OutstandingRequest>>>;
+
+/// Slot state codes for the pre-state of one map entry.
+fn entry_for(code: u8, id: usize, ready_slot: u8) -> Option<(rpc::MessageId, OutstandingRequest)> {
+    match code {
+        0 => None,
+        1 => Some((vr::message_id(id), OutstandingRequest::Pending)),
+        2 => Some((vr::message_id(id), OutstandingRequest::Ready(vr::partial_reply(id, ready_slot)))),
+        _ => Some((vr::message_id(id), OutstandingRequest::Complete)),
+    }
+}
+
+fn map_from(e1: Option<(rpc::MessageId, OutstandingRequest)>, e2: Option<(rpc::MessageId, OutstandingRequest)>) -> Requests {
+    Arc::new(Mutex::new(HashMap::from_slots([e1, e2, None, None, None, None, None, None, None, None, None, None, None, None])))
+}
+
+/// Representation invariant of the map: a parked reply sits under its own message-id.
+fn invariant(m: &HashMap<rpc::MessageId, OutstandingRequest>) -> bool {
+    let mut ok = true;
+    let mut k = 0;
+    while k < 2 {
+        let id = k + 1;
+        if let Some(OutstandingRequest::Ready(p)) = m.get(&vr::message_id(id)) {
+            ok &= vr::partial_reply_id(p) == id;
+        }
+        k += 1;
+    }
+    ok
+}
+
+/// `str::from_utf8` without the validation loop, for harnesses whose inputs are the one-byte
+/// tape selectors (valid UTF-8 by construction).  UTF-8 handling itself is C14's subject.
+pub fn from_utf8_trusting(v: &[u8]) -> Result<&str, std::str::Utf8Error> {
+    Ok(unsafe { std::str::from_utf8_unchecked(v) })
+}
+
+/// C05 (inductive step): the waiter for message-id 1 runs from an arbitrary valid map state
+/// (its own entry and the entry of request 2 each absent / Pending / Ready / Complete) against a
+/// transport that delivers up to two further replies bearing ids from {1, 2, 9}.
+#[kani::proof]
+#[kani::unwind(8)]
+#[kani::stub(std::str::from_utf8, from_utf8_trusting)]
+fn c05_recv_step_two_arrivals() {
+    recv_step(2)
+}
+
+/// Same with at most one arriving reply (quick tier).
+#[kani::proof]
+#[kani::unwind(8)]
+#[kani::stub(std::str::from_utf8, from_utf8_trusting)]
+fn c05_recv_step_one_arrival() {
+    recv_step(1)
+}
+
+fn recv_step(max_arrivals: usize) {
+    tape::set_tables(&SESSION_NAMES, &SESSION_TEXTS, &SESSION_ATTRS);
+    // parked replies (if any) use tape slots 2 and 3; arriving ones slots 0 and 1
+    tape::register(2, reply_tape(0));
+    tape::register(3, reply_tape(1));
+    let c0: u8 = kani::any();
+    kani::assume(c0 < 3);
+    let c1: u8 = kani::any();
+    kani::assume(c1 < 3);
+    tape::register(0, reply_tape(c0));
+    tape::register(1, reply_tape(c1));
+    let n: usize = kani::any();
+    kani::assume(n <= max_arrivals);
+    let s1: u8 = kani::any();
+    kani::assume(s1 < 4);
+    let s2: u8 = kani::any();
+    kani::assume(s2 < 3);
+    let requests = map_from(entry_for(s1, 1, 2), entry_for(s2, 2, 3));
+    let rx = Arc::new(Mutex::new(MemRx { slots: [0, 1], n, pos: 0, taken: 0 }));
+    let fut = Session::<MemTransport>::recv::<Get>(vr::message_id(1), requests.clone(), rx.clone());
+    let r = tokio::model::run_bounded(fut, 2);
+    // --- what must hold afterwards -------------------------------------------------------------
+    assert!(!rx.is_locked(), "C05: receive lock still held after the waiter finished or suspended");
+    assert!(!requests.is_locked(), "C05: map lock still held");
+    let taken = rx.try_lock().unwrap().taken;
+    {
+        let m = requests.try_lock().unwrap();
+        assert!(invariant(&m), "C05: a reply is parked under a message-id that is not its own");
+    }
+    match &r {
+        Some(Ok(data)) => {
+            assert!(&**data == "d1", "C05: the waiter for message-id 1 received a reply bearing another id");
+            assert!(s1 == 2 || (s1 == 1 && ((n >= 1 && c0 == 0) || (n == 2 && c0 == 1 && s2 == 1 && c1 == 0))),
+                "C05: a result was delivered although no reply with this id was parked or arrived for a pending request");
+        }
+        Some(Err(_)) => {}
+        None => {
+            // still waiting: only legitimate if the own entry is pending and no own reply has arrived
+            assert!(s1 == 1, "C05: waiter suspended although its request is not pending");
+            assert!(taken == n, "C05: waiter suspended although the transport has a reply ready");
+        }
+    }
+    kani::cover!(matches!(r, Some(Ok(_))) && s1 == 1 && n == max_arrivals && c0 == (max_arrivals as u8 - 1), "own reply arrives (after the other one was parked, if two arrive)");
+    kani::cover!(matches!(r, Some(Ok(_))) && s1 == 2, "own reply was already parked");
+    kani::cover!(r.is_none(), "waiter keeps waiting");
+    kani::cover!(matches!(r, Some(Err(_))) && n >= 1 && c0 == 2, "reply with an unknown id surfaces as an error");
+    std::mem::forget(r);
+    std::mem::forget(requests);
+    std::mem::forget(rx);
+}
+
+// =================================================================================================
+// C12: version negotiation and framing.
+
+use crate::message::{ClientMsg, WriteXml};
+
+/// C12: with the client's default hello, for every server base-version advertisement the
+/// negotiated version is the highest common one (or the session is refused), **and** the
+/// client frames its messages as RFC 6242 §4.1 prescribes for that version: end-of-message
+/// framing for :base:1.0, chunked framing for :base:1.1.
+#[kani::proof]
+#[kani::unwind(40)]
+fn c12_negotiation_and_framing() {
+    let s10: bool = kani::any();
+    let s11: bool = kani::any();
+    let other: bool = kani::any();
+    let server = crate::capabilities::verif_caps::capabilities_from_slots([
+        if s10 { Some(Capability::Base(Base::V1_0)) } else { None },
+        if s11 { Some(Capability::Base(Base::V1_1)) } else { None },
+        if other { Some(Capability::Candidate) } else { None },
+        None, None, None, None, None, None, None, None, None, None, None,
+    ]);
+    let client = ClientHello::default().capabilities();
+    let negotiated = client.highest_common_version(&server);
+    // what the client put into its own hello decides what it may negotiate
+    let c10 = client.iter().any(|c| matches!(c, Capability::Base(Base::V1_0)));
+    let c11 = client.iter().any(|c| matches!(c, Capability::Base(Base::V1_1)));
+    match &negotiated {
+        Ok(Base::V1_1) => assert!(c11 && s11, "C12: negotiated :base:1.1 without both peers advertising it"),
+        Ok(Base::V1_0) => assert!(c10 && s10 && !(c11 && s11), "C12: negotiated :base:1.0 although it is not the highest common version"),
+        Err(_) => assert!(!(c10 && s10) && !(c11 && s11), "C12: session refused although the peers share a base version"),
+    }
+    // framing of the first request after the hello exchange
+    quick_xml::writer::set_emit_bytes(true);
+    let req = rpc::Request::new(vr::message_id(1), CloseSession);
+    let wire = req.to_xml();
+    if let (Ok(v), Ok(bytes)) = (&negotiated, &wire) {
+        let b = bytes.as_bytes();
+        let eom = b.len() >= 6 && &b[b.len() - 6..] == b"]]>]]>";
+        let chunked = b.len() >= 2 && b[0] == b'\n' && b[1] == b'#';
+        match v {
+            Base::V1_0 => assert!(eom && !chunked, "C12: :base:1.0 negotiated but the request is not end-of-message framed"),
+            Base::V1_1 => assert!(chunked && !eom, "C12: :base:1.1 negotiated but the request is not chunk framed (RFC 6242 4.2)"),
+        }
+    }
+    kani::cover!(matches!(negotiated, Ok(Base::V1_0)), "1.0 negotiated");
+    kani::cover!(negotiated.is_err(), "refused");
+    std::mem::forget((negotiated, wire, server, client));
+}
+
+// =================================================================================================
+// C18: dropping a reply future.
+
+fn c18_setup() -> (Requests, Arc<Mutex<MemRx>>) {
+    tape::set_tables(&SESSION_NAMES, &SESSION_TEXTS, &SESSION_ATTRS);
+    tape::register(0, reply_tape(1)); // the reply that arrives later bears message-id 2
+    let requests = map_from(entry_for(1, 1, 2), entry_for(1, 2, 3));
+    let rx = Arc::new(Mutex::new(MemRx { slots: [0, 1], n: 0, pos: 0, taken: 0 }));
+    (requests, rx)
+}
+
+/// after the drop: locks free, and the waiter for request 2 completes with its own reply once
+/// that reply is available
+fn c18_survivor_completes(requests: &Requests, rx: &Arc<Mutex<MemRx>>) {
+    assert!(!rx.is_locked(), "C18: receive lock still held after the reading future was dropped");
+    assert!(!requests.is_locked(), "C18: map lock still held after the reading future was dropped");
+    let fut2 = Session::<MemTransport>::recv::<Get>(vr::message_id(2), requests.clone(), rx.clone());
+    let r2 = tokio::model::run_bounded(fut2, 2);
+    match &r2 {
+        Some(Ok(data)) => assert!(&**data == "d2", "C18: surviving waiter received a reply bearing another id"),
+        Some(Err(_)) => assert!(false, "C18: surviving waiter failed after another future was dropped"),
+        None => assert!(false, "C18: surviving waiter never completes: its reply was lost with the dropped future"),
+    }
+    std::mem::forget(r2);
+}
+
+/// C18: the future that is reading from the transport is dropped while it waits for bytes
+/// (never polled / polled once); the other outstanding request still completes.
+#[kani::proof]
+#[kani::unwind(8)]
+#[kani::stub(std::str::from_utf8, from_utf8_trusting)]
+fn c18_drop_while_waiting_for_transport() {
+    let (requests, rx) = c18_setup();
+    let polled: bool = kani::any();
+    {
+        let mut fut = Box::pin(Session::<MemTransport>::recv::<Get>(vr::message_id(1), requests.clone(), rx.clone()));
+        if polled {
+            assert!(tokio::model::poll_once(fut.as_mut()).is_pending());
+            assert!(rx.is_locked(), "the polled future is the reader");
+        }
+        drop(fut);
+    }
+    // now the reply to request 2 arrives
+    rx.try_lock().unwrap().n = 1;
+    c18_survivor_completes(&requests, &rx);
+    kani::cover!(polled, "dropped while it was the reader");
+    kani::cover!(!polled, "dropped before the first poll");
+    std::mem::forget((requests, rx));
+}
+
+/// C18: the reading future has taken another request's reply off the transport and is
+/// suspended on the map lock (held by a concurrent `rpc()` that is sending) when it is dropped.
+#[kani::proof]
+#[kani::unwind(8)]
+#[kani::stub(std::str::from_utf8, from_utf8_trusting)]
+fn c18_drop_at_map_lock_with_reply_in_hand() {
+    let (requests, rx) = c18_setup();
+    {
+        let mut fut = Box::pin(Session::<MemTransport>::recv::<Get>(vr::message_id(1), requests.clone(), rx.clone()));
+        assert!(tokio::model::poll_once(fut.as_mut()).is_pending());
+        // a concurrent rpc() takes the map lock (it keeps it while it sends), then the reply to
+        // request 2 arrives
+        let guard = requests.try_lock().unwrap();
+        unsafe { (*(Arc::as_ptr(&rx) as *mut Mutex<MemRx>)).get_mut().n = 1 };
+        assert!(tokio::model::poll_once(fut.as_mut()).is_pending());
+        kani::cover!(true, "reader suspended on the map lock");
+        drop(fut);
+        drop(guard);
+    }
+    c18_survivor_completes(&requests, &rx);
+    std::mem::forget((requests, rx));
 }
